@@ -175,6 +175,44 @@ func runC17(c *kit.Ctx) {
 			f := cc.StaticCallee()
 			return f.Name() == "Request" && strings.HasSuffix(fnPkgPath(f), "internal/resourcemanager")
 		}
+		// a release helper: a function of package torrent that releases (or finds
+		// ram == nil) on every path and does not touch pieceDownloaders itself
+		isDirectRelease := isRelease
+		helperMemo := map[*ssa.Function]bool{}
+		releaseHelper := func(f *ssa.Function) bool {
+			if f == nil || f.Blocks == nil || !inPkg(f, c, "torrent") {
+				return false
+			}
+			if v, ok := helperMemo[f]; ok {
+				return v
+			}
+			touches := false
+			kit.Instrs(f, func(ins ssa.Instruction) {
+				if isMapUpdateOf(ins, fPD) || isDeleteOf(ins, fPD) {
+					touches = true
+				}
+			})
+			fl := (&kit.Flow{P: c.Prog, Fn: f,
+				Edge: func(a kit.Atom) bool { return a.IsNilCmp(true, func(e *kit.Expr) bool { return e.IsField(fRam) }) },
+				Instr: func(ins ssa.Instruction, in bool) bool {
+					if isDirectRelease(ins) {
+						return true
+					}
+					return in
+				}}).Solve()
+			res := !touches && len(returnsOf(f)) > 0 && len(fl.FailingReturns()) == 0
+			helperMemo[f] = res
+			return res
+		}
+		isRelease = func(ins ssa.Instruction) bool {
+			if isDirectRelease(ins) {
+				return true
+			}
+			if call, ok := ins.(*ssa.Call); ok {
+				return releaseHelper(call.Call.StaticCallee())
+			}
+			return false
+		}
 		// the `started` flag: local bool captured by the deferred closure
 		var started *ssa.Alloc
 		var deferred *ssa.Function
@@ -320,7 +358,7 @@ func runC17(c *kit.Ctx) {
 						}}).Solve()
 					c.Check(len(fl.FailingReturns()) == 0, "R17.2", k.key(fn, "ram.Request"), posOf(ins),
 						"a granted reservation always reaches startSinglePieceDownloader (which registers or releases)", "a granted piece-buffer reservation can be dropped without release")
-				case isRelease(ins):
+				case isDirectRelease(ins):
 					amounts[kit.Canon(cc.Args[1]).String()] = true
 				}
 			})
@@ -680,12 +718,24 @@ func runC17Caps(c *kit.Ctx, k *keyer) {
 	{
 		fAvail := c.Field("internal/resourcemanager", "ResourceManager", "available")
 		nb := 0
+		// fact: we are inside the select arm that delivered the grant (evaluated in the
+		// booking function or, when the booking is a helper, at each of its call sites)
+		delivered := &kit.Spec{P: c.Prog, Edge: func(a kit.Atom) bool {
+			if a.L.Kind != "extract" || a.L.Idx != 0 || a.Op != token.EQL {
+				return false
+			}
+			sel, ok := a.L.Args[0].V.(*ssa.Select)
+			if !ok {
+				return false
+			}
+			z, ok := a.R.IntConst()
+			return ok && z >= 0 && int(z) < len(sel.States) && sel.States[z].Dir == types.SendOnly
+		}}
 		for _, fn := range c.ModuleFunctions() {
 			if !strings.HasSuffix(kit.FnPkgPath(fn), "internal/resourcemanager") {
 				continue
 			}
-			var delivered *kit.Flow
-			kit.Instrs(fn, func(ins ssa.Instruction) {
+				kit.Instrs(fn, func(ins ssa.Instruction) {
 				st, ok := ins.(*ssa.Store)
 				if !ok {
 					return
@@ -699,20 +749,7 @@ func runC17Caps(c *kit.Ctx, k *keyer) {
 					return
 				}
 				nb++
-				if delivered == nil {
-					delivered = c.AtomFlow(fn, func(a kit.Atom) bool {
-						if a.L.Kind != "extract" || a.L.Idx != 0 || a.Op != token.EQL {
-							return false
-						}
-						sel, ok := a.L.Args[0].V.(*ssa.Select)
-						if !ok {
-							return false
-						}
-						z, ok := a.R.IntConst()
-						return ok && z >= 0 && int(z) < len(sel.States) && sel.States[z].Dir == types.SendOnly
-					}, nil)
-				}
-				c.Check(delivered.Before(st), "R17.2", k.key(fn, "book reservation"), posOf(st),
+				c.Check(delivered.Holds(st, 2), "R17.2", k.key(fn, "book reservation"), posOf(st),
 					"budget booked only in the select arm that delivered the grant to the requester", "the budget is decremented before / without the grant having been delivered: if the requester cancels instead, the reservation is booked for nobody and never released")
 			})
 		}
@@ -748,16 +785,15 @@ func runC17Caps(c *kit.Ctx, k *keyer) {
 	// ---- R17.6 rate buckets
 	{
 		type site struct {
-			fn     *ssa.Function
+			pkg    string
 			bucket *types.Var
 			isXfer func(ssa.Instruction) bool
 			what   string
 		}
-		mw := c.Func("internal/peerconn/peerwriter", "(*PeerWriter).messageWriter")
-		rp := c.Func("internal/peerconn/peerreader", "(*PeerReader).readPiece")
 		tPiece := c.Named("internal/peerconn/peerwriter", "Piece")
+		fPoolData := c.Field("internal/bufferpool", "Buffer", "Data")
 		sites := []site{
-			{mw, c.Field("internal/peerconn/peerwriter", "PeerWriter", "bucket"), func(ins ssa.Instruction) bool {
+			{"internal/peerconn/peerwriter", c.Field("internal/peerconn/peerwriter", "PeerWriter", "bucket"), func(ins ssa.Instruction) bool {
 				cc := kit.CallOf(ins)
 				if cc == nil || !cc.IsInvoke() || cc.Method.Name() != "Write" {
 					return false
@@ -765,13 +801,15 @@ func runC17Caps(c *kit.Ctx, k *keyer) {
 				a := kit.Canon(cc.Args[0])
 				return a.Kind == "call" && a.Name == "Bytes"
 			}, "piece frame write"},
-			{rp, c.Field("internal/peerconn/peerreader", "PeerReader", "bucket"), func(ins ssa.Instruction) bool {
+			{"internal/peerconn/peerreader", c.Field("internal/peerconn/peerreader", "PeerReader", "bucket"), func(ins ssa.Instruction) bool {
 				cc := kit.CallOf(ins)
-				return cc != nil && cc.StaticCallee() != nil && cc.StaticCallee().Name() == "ReadFull"
+				// a read into a pooled block buffer
+				return cc != nil && cc.StaticCallee() != nil && cc.StaticCallee().Name() == "ReadFull" && len(cc.Args) == 2 &&
+					kit.Canon(cc.Args[1]).Mentions(func(e *kit.Expr) bool { return e.IsField(fPoolData) })
 			}, "piece payload read"},
 		}
 		for _, s := range sites {
-			taken := (&kit.Flow{P: c.Prog, Fn: s.fn,
+			taken := &kit.Spec{P: c.Prog,
 				Edge: func(a kit.Atom) bool {
 					if a.IsNilCmp(true, func(e *kit.Expr) bool { return e.IsField(s.bucket) }) {
 						return true
@@ -793,21 +831,24 @@ func runC17Caps(c *kit.Ctx, k *keyer) {
 					if s.isXfer(ins) {
 						return false // one Take per transfer
 					}
-					if _, ok := ins.(*ssa.Select); ok && s.fn == mw {
-						if sel := ins.(*ssa.Select); len(sel.States) >= 3 {
-							return false // new message
-						}
+					if sel, ok := ins.(*ssa.Select); ok && len(sel.States) >= 3 {
+						return false // next message of the writer loop
 					}
 					return in
-				}}).Solve()
+				}}
 			n := 0
-			kit.Instrs(s.fn, func(ins ssa.Instruction) {
-				if s.isXfer(ins) {
-					n++
-					c.Check(taken.Before(ins), "R17.6", k.key(s.fn, s.what), posOf(ins),
-						"bucket.Take precedes the "+s.what+" whenever the bucket is non-nil", "rate limit can be bypassed: "+s.what+" without bucket.Take on some path")
+			for _, fn := range c.ModuleFunctions() {
+				if !inPkg(fn, c, s.pkg) {
+					continue
 				}
-			})
+				kit.Instrs(fn, func(ins ssa.Instruction) {
+					if s.isXfer(ins) {
+						n++
+						c.Check(taken.Holds(ins, 2), "R17.6", k.key(fn, s.what), posOf(ins),
+							"bucket.Take precedes the "+s.what+" whenever the bucket is non-nil", "rate limit can be bypassed: "+s.what+" without bucket.Take on some path")
+					}
+				})
+			}
 			c.Floor("R17.6", s.what+" sites", n, 1)
 		}
 	}
